@@ -431,12 +431,33 @@ noncomputable def Expr.eval (ρ : String → ℝ) : Expr → ℝ
   | .mul a b => Expr.eval ρ a * Expr.eval ρ b
   | .div a b => Expr.eval ρ a / Expr.eval ρ b
 
-theorem Expr.eval_norm (ρ : String → ℝ) (hρ : ∀ n, 0 < ρ n) : ∀ (e : Expr), Expr.eval ρ (Expr.norm e) = Expr.eval ρ e
+theorem Expr.eval_norm (ρ : String → ℝ) (hρ : ∀ n ∈ nonnegParams, 0 ≤ ρ n) : ∀ (e : Expr), Expr.eval ρ (Expr.norm e) = Expr.eval ρ e
   | .var _ => rfl
   | .lit _ _ => rfl
   | .sqrt a => by simp only [Expr.norm, Expr.eval, Expr.eval_norm ρ hρ a]
-  | .add a b => by simp only [Expr.norm, Expr.eval, Expr.eval_norm ρ hρ a, Expr.eval_norm ρ hρ b]
   | .sub a b => by simp only [Expr.norm, Expr.eval, Expr.eval_norm ρ hρ a, Expr.eval_norm ρ hρ b]
+  | .add a b => by
+    have ha := Expr.eval_norm ρ hρ a
+    have hb := Expr.eval_norm ρ hρ b
+    unfold Expr.norm
+    split
+    · rename_i ha'
+      rw [ha'] at ha
+      simp only [Expr.eval] at ha ⊢
+      rw [← ha, hb]; simp
+    · rename_i hb' _
+      rw [hb'] at hb
+      simp only [Expr.eval] at hb ⊢
+      rw [← hb, ha]; simp
+    · rename_i x y ha' _
+      rw [ha'] at ha
+      split
+      · rename_i hy
+        simp only [Expr.eval] at ha ⊢
+        rw [← ha, ← hb, ← hy]; ring
+      · simp only [Expr.eval] at ha ⊢
+        rw [ha, hb]
+    · simp only [Expr.eval, ha, hb]
   | .mul a b => by
     have ha := Expr.eval_norm ρ hρ a
     have hb := Expr.eval_norm ρ hρ b
@@ -446,9 +467,11 @@ theorem Expr.eval_norm (ρ : String → ℝ) (hρ : ∀ n, 0 < ρ n) : ∀ (e : 
       rw [hx] at ha; rw [hy] at hb
       simp only [Expr.eval] at ha hb ⊢
       split
-      · rename_i hxy; subst hxy
+      · rename_i hxy
+        obtain ⟨hxy, hmem⟩ := hxy
+        subst hxy
         rw [← ha, ← hb]; simp only [Expr.eval]
-        exact (Real.mul_self_sqrt (hρ x).le).symm
+        exact (Real.mul_self_sqrt (hρ x hmem)).symm
       · simp only [Expr.eval]; rw [ha, hb]
     · simp only [Expr.eval, ha, hb]
   | .div a b => by
@@ -466,27 +489,29 @@ theorem Expr.eval_norm (ρ : String → ℝ) (hρ : ∀ n, 0 < ρ n) : ∀ (e : 
       rw [← ha, ← hb]; simp
     · simp only [Expr.eval, ha, hb]
 
-/-- a law with real parameters in the canonical parametrisation -/
+/-- a law with real parameters in the canonical parametrisation: that of `loc + X`, `X ~ fam params` -/
 structure Law where
   fam : LawFam
   params : List ℝ
+  loc : ℝ
 
-noncomputable def LawS.eval (ρ : String → ℝ) (l : LawS) : Law := ⟨l.fam, l.params.map (Expr.eval ρ)⟩
+noncomputable def LawS.eval (ρ : String → ℝ) (l : LawS) : Law := ⟨l.fam, l.params.map (Expr.eval ρ), Expr.eval ρ l.loc⟩
 
-theorem LawS.eval_norm (ρ : String → ℝ) (hρ : ∀ n, 0 < ρ n) (l : LawS) : l.norm.eval ρ = l.eval ρ := by
+theorem LawS.eval_norm (ρ : String → ℝ) (hρ : ∀ n ∈ nonnegParams, 0 ≤ ρ n) (l : LawS) : l.norm.eval ρ = l.eval ρ := by
   unfold LawS.norm LawS.eval
   simp only [List.map_map, Law.mk.injEq, true_and]
+  refine ⟨?_, Expr.eval_norm ρ hρ l.loc⟩
   apply List.map_congr_left
   intro e _
   exact Expr.eval_norm ρ hρ e
 
-theorem law_eq_of_norm_eq {a b : LawS} (h : a.norm = b.norm) (ρ : String → ℝ) (hρ : ∀ n, 0 < ρ n) :
+theorem law_eq_of_norm_eq {a b : LawS} (h : a.norm = b.norm) (ρ : String → ℝ) (hρ : ∀ n ∈ nonnegParams, 0 ≤ ρ n) :
     a.eval ρ = b.eval ρ := by
   rw [← LawS.eval_norm ρ hρ a, ← LawS.eval_norm ρ hρ b, h]
 
 theorem wrapperOk_sound {w : Wrapper} (h : wrapperOk w = true) :
     ∃ a b, stdLawS w.family w.args = some a ∧ libLawS w.name = some b ∧
-      ∀ ρ : String → ℝ, (∀ n, 0 < ρ n) → a.eval ρ = b.eval ρ := by
+      ∀ ρ : String → ℝ, (∀ n ∈ nonnegParams, 0 ≤ ρ n) → a.eval ρ = b.eval ρ := by
   unfold wrapperOk at h
   split at h
   · rename_i a b ha hb
@@ -495,7 +520,7 @@ theorem wrapperOk_sound {w : Wrapper} (h : wrapperOk w = true) :
 
 theorem randCOk_sound {ws : List Wrapper} {r : RandC} (h : randCOk ws r = true) :
     ∃ a b, randCLawS ws r = some a ∧ distLawS r.dist = some b ∧
-      ∀ ρ : String → ℝ, (∀ n, 0 < ρ n) → a.eval ρ = b.eval ρ := by
+      ∀ ρ : String → ℝ, (∀ n ∈ nonnegParams, 0 ≤ ρ n) → a.eval ρ = b.eval ρ := by
   unfold randCOk at h
   split at h
   · rename_i a b ha hb
